@@ -1,7 +1,7 @@
 // matrix_big_ops3.h — included inside class mx::Engine<B>: arithmetic (in place and expressions), queries.
 
 std::string pairKey(const std::string& op, const Obj& a, const Obj& b) const {
-    return op + ":" + typeName(a.t) + "," + typeName(b.t) + ":" + kKindName[a.kind] + "," + kKindName[b.kind];
+    return op + ":" + typeName(a.t) + "," + typeName(b.t);   // object kinds are in the history of the witness
 }
 static LC cdiv(const LC& a, const LC& b) { return a / b; }
 bool smallAny(const Obj& o, double lim = 0.05) const {
@@ -149,6 +149,7 @@ template <class ResT> void finishResult(const std::string& key, const ResT& res,
             auto ow = newOwnerModel(nr, nc, TR);
             for (size_t q = 0; q < got.size(); ++q) ow->b[q] = toLog(TR, got[q]);
             Obj* o = add(kind, TR, p, ow, nr, nc, identityMap(nr * nc), true, true, 0, false, nr, nc);   // conservatively: never resized
+            o->canClear = false;
             hist.back() += "  => adopted as " + tag(*o);
         }
     }
